@@ -27,6 +27,10 @@ KNOWN_DEFECT_KEY = "c09:unnormalised-2site-truncation"
 # through '2site' sweeps.  The random generator therefore does not draw initial states with a factor; `initial_factor_probe`
 # exercises the input on every run and records the outcome (flagged only once the key is listed).
 FACTOR_DEFECT_KEY = "c09:initial-factor-2site"
+# candidate (same root cause as (b) of the known finding: `eigs` keeps expanding an exhausted Krylov space down to the absolute
+# threshold 1e-13 and may select a Ritz vector made of normalised round-off): an energy increase in a sweep in which such an
+# ill-defined local solve was OBSERVED (KrylovWatch) is attributed to it: counted, noted, flagged only once the key is listed.
+LANCZOS_DEFECT_KEY = "c09:illdefined-lanczos-energy-increase"
 
 
 class CaseTimeout(BaseException):
@@ -623,6 +627,7 @@ def run_dmrg(case, monitor=True, precompute=None, nsplit=None):
     mon = Monitor(psi) if monitor else None
     err = None
     watch = KrylovWatch()
+    ill_marks = [0]
     try:
         watch.__enter__()
         if mon:
@@ -630,6 +635,7 @@ def run_dmrg(case, monitor=True, precompute=None, nsplit=None):
         try:
             for out in mps.dmrg_(psi, H, **kw):
                 outs.append(out)
+                ill_marks.append(watch.ill)
                 if case.get("keep_vecs", True) and N <= 8:
                     if mon:
                         mon.active = False
@@ -644,7 +650,7 @@ def run_dmrg(case, monitor=True, precompute=None, nsplit=None):
         if mon:
             mon.__exit__(None, None, None)
         watch.__exit__(None, None, None)
-    return {"ill_solves": watch.ill, "solves": watch.solves, "ops": ops, "H": H, "Hs": Hs, "parts": parts, "psi": psi, "v0": v0, "outs": outs, "vecs": [v for v, _ in vecs],
+    return {"ill_solves": watch.ill, "solves": watch.solves, "ill_per_sweep": [b - a for a, b in zip(ill_marks, ill_marks[1:])], "ops": ops, "H": H, "Hs": Hs, "parts": parts, "psi": psi, "v0": v0, "outs": outs, "vecs": [v for v, _ in vecs],
             "mon": mon, "err": err, "project": project, "pens": [100.0 if p is None else float(p) for p in pens]}
 
 
@@ -790,7 +796,8 @@ def oracles(ctx, case, res):
     #    reported discarded weight is zero).  With penalties the minimised operator is H' (Rayleigh quotients of H').
     prev = _ray(Hp, v0)
     nb_ok = True
-    for out, w, bad in zip(outs, vecs, tainted):
+    ill = list(res.get("ill_per_sweep") or []) + [0] * len(outs)
+    for out, w, bad, nill in zip(outs, vecs, tainted, ill):
         Ew = _ray(Hp, w)
         if nproj == 0:
             if abs(out.energy - (w.conj() @ Hd @ w).real) > 1e-9 * scale:
@@ -800,11 +807,24 @@ def oracles(ctx, case, res):
         binds = out.max_discarded_weight is not None and out.max_discarded_weight > 1e-13
         nb_ok = nb_ok and not binds
         if nb_ok and Ew > prev + 1e-9 * scaleP:
-            if nproj == 0:
-                fail("c09:monotone", f"sweep {out.sweeps} ({out.method}): energy increased {prev!r} -> {Ew!r} although no truncation binds")
+            what = (f"sweep {out.sweeps} ({out.method}): energy increased {prev!r} -> {Ew!r} although no truncation binds" if nproj == 0 else
+                    f"sweep {out.sweeps} ({out.method}): <H + sum_i p_i|phi_i><phi_i|> increased {prev!r} -> {Ew!r} although no "
+                    f"truncation binds (penalties {pens})")
+            if bad:
+                # the output of this sweep is un-normalised (norm may be ~1e-15: its direction is round-off): part of the known
+                # finding reported above for this very case
+                ctx.count("monotone_increase_attributed_to_known_defect")
+            elif nill > 0:
+                ctx.count("monotone_increase_with_illdefined_lanczos")
+                what += f"; {nill} local eigen-solve(s) of this sweep ran on an exhausted Krylov space and selected a round-off Ritz vector"
+                if known_defect_listed(LANCZOS_DEFECT_KEY):
+                    ctx.fail("oracle", LANCZOS_DEFECT_KEY, what, case=cj, concrete=True)
+                else:
+                    first = not any(LANCZOS_DEFECT_KEY in n for n in ctx.notes)   # full replayable case once per run
+                    ctx.notes.append(f"candidate defect {LANCZOS_DEFECT_KEY} (not flagged: not listed in known_findings.json): " + what
+                                     + " case=" + json.dumps(cj if first else {k: v for k, v in cj.items() if k != "terms"}))
             else:
-                fail("c09:monotone-project", f"sweep {out.sweeps} ({out.method}): <H + sum_i p_i|phi_i><phi_i|> increased {prev!r} -> {Ew!r} "
-                                             f"although no truncation binds (penalties {pens})")
+                fail("c09:monotone" if nproj == 0 else "c09:monotone-project", what)
         ctx.count(("monotone" if nproj == 0 else "monotone_project") + ("_checked" if nb_ok else "_skipped_truncation"))
         prev = Ew
     # -- converged at maximal bond dimension => eigenstate (of H' when states are penalised)
